@@ -273,7 +273,7 @@ class Pair:
     *peer's* per-instance handler table; the subject is not touched)."""
 
     def __init__(self, subject_role, cls="Transport", auth=True, strict=True, socks=None, cipher=None,
-                 subject_kwargs=None):
+                 subject_kwargs=None, compression=None):
         import paramiko
         from paramiko.transport import ServiceRequestingTransport, Transport
         from tests._loop import LoopSocket
@@ -287,10 +287,15 @@ class Pair:
         da = None
         if cipher:
             da = {"ciphers": [c for c in Transport._preferred_ciphers if c != cipher]}
+        if compression == "zlib":
+            da = dict(da or {}, compression=["zlib@openssh.com", "none"])
         kc = dict(subject_kwargs or {}) if subject_role == "client" else {}
         ks = dict(subject_kwargs or {}) if subject_role == "server" else {}
         self.tc = c_cls(a, strict_kex=strict, disabled_algorithms=da, **kc)
         self.ts = s_cls(b, strict_kex=strict, disabled_algorithms=da, **ks)
+        if compression:
+            self.tc.use_compression(True)
+            self.ts.use_compression(True)
         self.ts.add_server_key(host_key())
         self.server_obj = make_server_class()()
         ev = threading.Event()
@@ -730,6 +735,67 @@ def send_gate_facts():
     return {"rechecks_under_lock": bool(rechecks), "clears_before_write": bool(clears), "detail": facts}
 
 
+def clears_under_lock():
+    """Every `self.clear_to_send.clear()` in paramiko/transport.py with whether it is lexically inside a
+    `clear_to_send_lock` region (acquire()…try…finally release(), acquire()…release() in one block, or `with`):
+    [(function, line, under_lock)]"""
+    import paramiko.transport as T
+
+    tree = ast.parse(open(T.__file__, encoding="utf-8").read())
+    out = []
+
+    def is_lock_with(st):
+        return isinstance(st, ast.With) and any(
+            isinstance(i.context_expr, ast.Attribute) and i.context_expr.attr == "clear_to_send_lock" for i in st.items)
+
+    def walk(stmts, held, fn):
+        pending = False
+        for st in stmts:
+            if isinstance(st, (ast.FunctionDef, ast.AsyncFunctionDef)):
+                walk(st.body, False, st.name)
+                continue
+            if isinstance(st, ast.ClassDef):
+                walk(st.body, False, fn)
+                continue
+            if isinstance(st, ast.Expr) and _attr_call(st.value, "clear_to_send_lock", "acquire"):
+                pending = True
+                continue
+            if isinstance(st, ast.Expr) and _attr_call(st.value, "clear_to_send_lock", "release"):
+                pending = False
+                continue
+            here = held or pending
+            if isinstance(st, ast.Try):
+                walk(st.body, here, fn)
+                for h in st.handlers:
+                    walk(h.body, here, fn)
+                walk(st.orelse, here, fn)
+                walk(st.finalbody, here, fn)
+                if any(isinstance(f, ast.Expr) and _attr_call(f.value, "clear_to_send_lock", "release")
+                       for f in st.finalbody):
+                    pending = False
+                continue
+            if is_lock_with(st):
+                walk(st.body, True, fn)
+                continue
+            sub_lists = [getattr(st, f) for f in ("body", "orelse") if isinstance(getattr(st, f, None), list)
+                         and getattr(st, f) and isinstance(getattr(st, f)[0], ast.stmt)]
+            if sub_lists:
+                for f in ("test", "iter", "items"):
+                    v = getattr(st, f, None)
+                    for n in (ast.walk(v) if isinstance(v, ast.AST) else []):
+                        if _attr_call(n, "clear_to_send", "clear"):
+                            out.append((fn, n.lineno, bool(here)))
+                for sl in sub_lists:
+                    walk(sl, here, fn)
+                continue
+            for n in ast.walk(st):
+                if _attr_call(n, "clear_to_send", "clear"):
+                    out.append((fn, n.lineno, bool(here)))
+
+    walk(tree.body, False, "<module>")
+    return out
+
+
 def overflow_test_facts():
     """From the AST of Packetizer.read_message: inside `if self.__need_rekey:` the test that raises "ignoring rekey
     requests" compares which counters with which limits?  Returns [(counter attribute, limit attribute)] (names
@@ -781,9 +847,14 @@ def lean_channel_table(sites, takes, handlers, gate):
         "/-- Packetizer.read_message, branch `if need_rekey`: (counter, limit) of each comparison in the test that raises\n"
         "\"Remote transport is ignoring rekey requests\" -/\n"
         "def overflowTests : List (String × String) := [%s]\n\n"
+        "/-- every `clear_to_send.clear()` in transport.py: (function, line, inside a clear_to_send_lock region) -/\n"
+        "def clearSites : List (String × Nat × Bool) := [%s]\n\n"
+        "def allClearsUnderLock : Bool := clearSites.all (·.2.2) && !clearSites.isEmpty\n\n"
         "end PV.Generated.C11\n" % (rows, hrows, "true" if gate["rechecks_under_lock"] else "false",
                                       "true" if gate["clears_before_write"] else "false",
-                                      ", ".join('("%s", "%s")' % p for p in (gate.get("overflow_tests") or [])))
+                                      ", ".join('("%s", "%s")' % p for p in (gate.get("overflow_tests") or [])),
+                                      ", ".join('("%s", %d, %s)' % (f, l, "true" if u else "false")
+                                                for f, l, u in (gate.get("clear_sites") or [])))
     )
 
 
@@ -794,6 +865,127 @@ def write_generated_c11(ctx):
     handlers = {f.__name__ for f in Transport._channel_handler_table.values()}
     gate = send_gate_facts()
     gate["overflow_tests"] = overflow_test_facts()
+    gate["clear_sites"] = clears_under_lock()
     ctx.extra["send_gate_facts"] = gate
     ctx.write_generated("C11", lean_channel_table(sites, takes, handlers, gate))
     return sites, takes, handlers
+
+
+
+def parked_sender_vs_self_rekey(role):
+    """A user thread of the subject is stopped inside `_send_user_message` after its `is_set()` test, right before it
+    hands its packet to `_send_message`; the subject then starts a re-exchange itself (`_send_kex_init`, what a
+    threshold crossing or renegotiate_keys() does) on another thread.  The sender is released once the starter has
+    either reached `clear_to_send_lock.acquire()` (it must wait for the sender) or written KEXINIT."""
+    from tests._loop import LoopSocket
+
+    a, b = LoopSocket(), LoopSocket()
+    a.link(b)
+    pair = Pair(role, "Transport", True, socks=(a, b))
+    sub, peer = pair.subject, pair.peer
+    out = {"role": role}
+    try:
+        ch = pair.tc.open_session(timeout=30)
+        sch = pair.ts.accept(30)
+        if sch is None:
+            raise InfraError("accept timed out")
+        sub_ch, peer_ch = (sch, ch) if role == "server" else (ch, sch)
+        tap = Tap(sub)
+        sub.clear_to_send_timeout = 5.0
+        if not pair.barrier():
+            raise InfraError("session not usable before the re-exchange")
+        at_write, go, starter_at_lock = threading.Event(), threading.Event(), threading.Event()
+        threads = {}
+        orig_send = sub._send_message
+
+        def send_message(m):                       # observation point: between the is_set() test and the write
+            if threading.current_thread() is threads.get("user") and not at_write.is_set():
+                at_write.set()
+                go.wait(30)
+            return orig_send(m)
+
+        sub._send_message = send_message
+        real_lock = sub.clear_to_send_lock
+
+        class LockProxy:
+            def acquire(self, *a, **k):
+                if threading.current_thread() is threads.get("starter"):
+                    starter_at_lock.set()
+                return real_lock.acquire(*a, **k)
+
+            def release(self):
+                return real_lock.release()
+
+            def locked(self):
+                return real_lock.locked()
+
+            def __enter__(self):
+                self.acquire()
+                return self
+
+            def __exit__(self, *a):
+                self.release()
+
+        sub.clear_to_send_lock = LockProxy()
+        user_exc = []
+
+        def user():
+            try:
+                sub_ch.sendall(b"parked-before-write")
+            except Exception as e:
+                user_exc.append(e)
+
+        threads["user"] = threading.Thread(target=user, daemon=True)
+        threads["user"].start()
+        if not at_write.wait(20):
+            raise InfraError("the user thread never reached its write")
+        mark = len(tap.tx)
+        threads["starter"] = threading.Thread(target=sub._send_kex_init, daemon=True)
+        threads["starter"].start()
+        t0 = time.time()
+        while not (starter_at_lock.is_set() or any(r[0] == 20 for r in tap.tx[mark:])):
+            if time.time() - t0 > 20:
+                raise InfraError("the re-exchange starter neither reached the lock nor wrote KEXINIT")
+            time.sleep(0.002)
+        out["starter_waited_for_sender"] = starter_at_lock.is_set() and not any(r[0] == 20 for r in tap.tx[mark:])
+        go.set()
+
+        def settled():
+            return (not sub.is_alive() or not peer.is_alive()) or (
+                not sub.in_kex and not peer.in_kex and sub.clear_to_send.is_set() and peer.clear_to_send.is_set()
+                and any(r[0] == 21 for r in tap.tx[mark:]))
+
+        t0 = time.time()
+        while not (settled() and not threads["user"].is_alive()) and time.time() - t0 < 30:
+            time.sleep(0.01)
+        for t in (sub, peer):
+            if not t.is_active():
+                t.join(10)
+        types = [r[0] for r in tap.tx[mark:]]
+        i20 = types.index(20) if 20 in types else len(types)
+        window = []
+        for t in types[i20 + 1:]:
+            if t == 21:
+                break
+            window.append(t)
+        out["before_kexinit"] = types[:i20]
+        out["window"] = window
+        out["completed"] = bool(21 in types and sub.is_active() and peer.is_active() and settled())
+        out["user_exc"] = repr(user_exc[0]) if user_exc else "-"
+        out["sub_exc"] = repr(sub.saved_exception)
+        out["peer_exc"] = repr(root_exc(peer.saved_exception)) if peer.saved_exception is not None else "None"
+        got = b""
+        if out["completed"] and not user_exc:
+            peer_ch.settimeout(20)
+            try:
+                while len(got) < 19:
+                    x = peer_ch.recv(64)
+                    if not x:
+                        break
+                    got += x
+            except Exception:
+                pass
+        out["delivered"] = got == b"parked-before-write"
+        return out
+    finally:
+        pair.close()
